@@ -157,7 +157,7 @@ func msgCases(c *Ctx) []json.RawMessage {
 	for k := 0; k <= len(full); k++ {
 		add(WireCase{Kind: "msgbegin", Only: "dec", Hex: hexOf(&SegBuf{b: full[:k]})})
 	}
-	for _, sz := range []uint32{0x80000000, 0xffffffff, 0x7fffffff, 0x00100000, 0x000fffff, 6, 5, 4} {
+	for _, sz := range []uint32{0x80000000, 0xffffffff, 0x7fffffff, 0x7ffffffc, 0x7ffffffe, 0x7ffffffb, 0x00100000, 0x000fffff, 6, 5, 4} {
 		h := []byte{0x80, 0x01, 0, 1, byte(sz >> 24), byte(sz >> 16), byte(sz >> 8), byte(sz), 'h', 'e', 'l', 'l', 'o', 0, 0, 0, 1}
 		add(WireCase{Kind: "msgbegin", Only: "dec", Hex: hexOf(&SegBuf{b: h})})
 	}
